@@ -5,7 +5,7 @@ Bounded grammar of value objects x store routes x read routes."""
 import sys, os, itertools, json, unicodedata
 sys.path.insert(0, os.path.dirname(os.path.abspath(__file__)))
 from lib import *
-from roundtrip import lit
+from roundtrip import lit, canon_dumpval, equiv
 from model import canon_value
 
 NUMBERS = ['1', '-1', '+1', '1.', '.5', '007', '-0', '0', '0.0', '1e5', '1E-5', '1.5(3)', '1(03)', '1.50(30)', '-1.25e+3(7)', '12345678901234567890',
@@ -15,7 +15,7 @@ NUMBERS = ['1', '-1', '+1', '1.', '.5', '007', '-0', '0', '0.0', '1e5', '1E-5', 
 
 def strings():
     out = []
-    for n in (0, 1, 2, 255, 256, 257, 511, 512, 513, 5000, 70000):
+    for n in (0, 1, 2, 255, 256, 257, 511, 512, 513, 5000, 70000, 140000):
         out.append('a' * n)
         if n:
             out.append(('é' * n))
@@ -122,8 +122,13 @@ def work(chunk):
               'pkt.create P0 0', 'pkt.set P0 %s V0' % U('_l1'), 'pkt.set P0 %s ?' % U('_l2'), 'loop.addpkt L0 P0',
               'loop.additem L0 %s V0' % U('_l3'),
               'itr.open L0 I0', 'itr.next I0', 'pkt.create P1 0', 'pkt.set P1 %s V0' % U('_l2'), 'itr.update I0 P1', 'itr.close I0',
+              # an update the library refuses (its second item belongs to no loop) between the stores and the reads: nothing of it stays
+              'itr.open L0 I0', 'itr.next I0', 'pkt.create P2 0', 'pkt.set P2 %s %s' % (U('_l1'), lit(('s', 'refused', True))),
+              'pkt.set P2 %s %s' % (U('_l3'), lit(('s', 'refused', True))), 'pkt.set P2 %s %s' % (U('_zz'), lit(('s', 'foreign', True))), 'itr.update I0 P2', 'itr.close I0',
               'val.copychar V0 %s' % U('mutated'), 'val.free V0', 'pkt.free P0', 'pkt.free P1',
-              'item.get H0 %s' % U('_s'), 'dump C0', 'walk C0']
+              'item.get H0 %s' % U('_s'), 'dump C0', 'walk C0',
+              # fifth store route, the parser: the CIF is written, the text parsed into a second CIF and that one read
+              'write C0 B0 v=2', 'parse new:C1 B0', 'dump C1']
         # a table that has been through the store answers look-ups under every canonically equivalent spelling of its keys
         lookups = []
         if spec[0] == 't' and spec[1]:
@@ -143,9 +148,32 @@ def work(chunk):
         if not isinstance(exp, dict) or errs:
             out.append((fam, spec, 'a store route failed: %r' % (errs[:3] or exp,)))
             continue
-        nl = len(lookups) + (1 if lookups else 0)
-        got_get, dump, walk = a[-3 - nl], a[-2 - nl], a[-1 - nl]
+        got_get, dump, walk = a[ie + 25], a[ie + 26], a[ie + 27]
+        wr, pr, dump1 = a[ie + 28], a[ie + 29], a[ie + 30]
+        if not isinstance(a[ie + 19], dict) or a[ie + 19].get('rc') == 0:
+            out.append((fam, spec, 'driver: the update with an item of no loop was not refused: %r' % (a[ie + 19],)))
+            continue
         problems = []
+        if isinstance(wr, dict) and wr.get('rc') == 0:
+            # (a value cif_write refuses - it says so - cannot take this route; what it does write must come back through the parser
+            # as the value stored, up to the two allowances of the written form: a number and an unquoted string of the same text are
+            # one value, an unquoted string that begins with a semicolon may come back quoted)
+            try:
+                if pr.get('rc') != 0 or pr.get('nerr'):
+                    problems.append('parser route: parsing the written CIF gave rc %r and %r error(s)' % (pr.get('rc'), pr.get('nerr')))
+                found1 = {}
+                for l in dump1['blocks'][0]['loops']:
+                    for p in l['packets']:
+                        for n, v in p:
+                            found1[n] = v
+                for n in ('_s', '_l1', '_l2', '_l3'):
+                    ce = canon_dumpval(exp)
+                    if ce[0] == 's' and ce[2] == 0 and len(ce[1]) > 2000:
+                        ce = (ce[0], ce[1], 1)      # too long for one line: it can only be written as a text field, and comes back quoted
+                    if n not in found1 or not equiv(ce, canon_dumpval(found1[n])):
+                        problems.append('parser route: %s reads back as %s' % (n, json.dumps(found1.get(n))[:300]))
+            except Exception as e:
+                problems.append('parser route: dump unusable: %r' % (e,))
         for (k, sp), ans in zip(lookups, a[len(a) - len(lookups):]):
             want = [e for kk, e in exp.get('i', []) if kk == k]
             if not isinstance(ans, dict) or ans.get('rc') != 0 or not want or not cmpv(want[-1], ans['v']):
@@ -191,7 +219,7 @@ def main():
     for f, _, _ in cs:
         fams[f] = fams.get(f, 0) + 1
     return rep.finish({'evaluations': n * 4 * 3, 'distinct_nontrivial': len(cs) - 2,
-                       'rule': 'value grammar: strings of length 0,1,2,255-257,511-513,5000,70000 in ASCII / BMP / supplementary / multi-line content plus syntactically special strings, quoted and unquoted; '
+                       'rule': 'value grammar: strings of length 0,1,2,255-257,511-513,5000,70000,140000 in ASCII / BMP / supplementary / multi-line content plus syntactically special strings, quoted and unquoted; '
                                '%d number spellings plain, quoted and as coerced number-like strings; unknown, n/a; ALL lists/tables with at most %d nodes over 6 leaves; special composites (3000-unit key, 200 elements, depth 6, NFD / case-variant keys). '
                                'Each value is stored by 4 routes (set_value, add_packet, add_item, iterator update), the caller object is then mutated and freed, and read back by 3 routes (get_value, iteration, cif_walk); a table read back is also queried for each key in its given, NFC and NFD spelling; '
                                'evaluations = cases x store routes x read routes' % (len(NUMBERS), 4 if tier == 'quick' else int(os.environ.get('C07_NODES', 6))),
